@@ -42,7 +42,7 @@ import (
 )
 
 func init() {
-	register(&Prop{ID: "C23", Gen: genC23, Run: runC23, Timeout: 120 * time.Second})
+	register(&Prop{ID: "C23", Gen: genC23, Run: runC23, Timeout: 60 * time.Second})
 }
 
 const c23Id = blockfetch.ProtocolId
@@ -292,11 +292,11 @@ func runC23(op string) string {
 	// as soon as that has happened), short when nothing more can happen
 	settle := 30 * time.Millisecond
 	if !isGet {
-		settle = 20 * time.Second
+		settle = 12 * time.Second
 	}
 	for _, e := range evs {
 		if e == "D" || e == "N" {
-			settle = 20 * time.Second
+			settle = 12 * time.Second
 		}
 	}
 	if isGet {
@@ -343,7 +343,7 @@ func runC23(op string) string {
 		select {
 		case r := <-resCh:
 			got = &r
-		case <-time.After(10 * time.Second):
+		case <-time.After(8 * time.Second):
 			if isGet {
 				return "HANG"
 			}
@@ -361,7 +361,7 @@ func runC23(op string) string {
 	stuck := ""
 	select {
 	case <-cli.DoneChan():
-	case <-time.After(10 * time.Second):
+	case <-time.After(8 * time.Second):
 		stuck = " STUCK"
 	}
 	mu.Lock()
@@ -464,7 +464,7 @@ func runC23Two(f []string) string {
 	go func() {
 		rangeRes <- cli.GetBlockRange(pcommon.NewPoint(blocks[1].Slot, blocks[1].Hash), pcommon.NewPoint(blocks[2].Slot, blocks[2].Hash))
 	}()
-	if _, err := l.peer.recv(c23Id, 20*time.Second); err != nil {
+	if _, err := l.peer.recv(c23Id, 12*time.Second); err != nil {
 		return "norequest"
 	}
 	type gres struct {
@@ -497,11 +497,11 @@ func runC23Two(f []string) string {
 	var r1err error
 	select {
 	case r1err = <-rangeRes:
-	case <-time.After(20 * time.Second):
+	case <-time.After(12 * time.Second):
 		return "r1: HANG"
 	}
 	// everything script1 causes has to be delivered before the second phase is judged
-	deadline := time.After(20 * time.Second)
+	deadline := time.After(12 * time.Second)
 waitCb:
 	for {
 		mu.Lock()
@@ -524,7 +524,7 @@ waitCb:
 	}
 	r2 := ""
 	if early == "" {
-		if _, err := l.peer.recv(c23Id, 20*time.Second); err != nil {
+		if _, err := l.peer.recv(c23Id, 12*time.Second); err != nil {
 			r2 = "norequest2"
 		}
 	}
@@ -535,7 +535,7 @@ waitCb:
 		settle := 30 * time.Millisecond
 		for _, e := range ev2 {
 			if e == "D" || e == "N" {
-				settle = 20 * time.Second
+				settle = 12 * time.Second
 			}
 		}
 		var g *gres
@@ -549,7 +549,7 @@ waitCb:
 			select {
 			case x := <-getRes:
 				g = &x
-			case <-time.After(10 * time.Second):
+			case <-time.After(8 * time.Second):
 			}
 		}
 		switch {
